@@ -1,6 +1,7 @@
 (* C39 - Configuration layering follows the documented precedence.
    This file holds only the statement, the property theorems and their non-vacuity examples. *)
-From PlzV Require Import Base.Harness Model.C39 Proof.C39.
+From Coq Require Import Permutation.
+From PlzV Require Import Base.Harness Model.C39 Gen.ConfigOrder Proof.C39.
 
 (* The effective value of every option, for every schema of defaults, every set of files, every list of
    file names and profiles and every list of -o overrides, is the documented one (Proof.C39.spec_value):
@@ -12,7 +13,11 @@ From PlzV Require Import Base.Harness Model.C39 Proof.C39.
      of the caller when the files list PATH in build.passenv / build.passunsafeenv, else DefaultPath) - of whatever
      kind, it applies only to an option that no source sets (Proof.C39.default_of);
    each profile file is read right after the file it belongs to; and the default files come in the
-   documented order /etc/please/plzconfig, user config, .plzconfig, .plzconfig_<arch>, .plzconfig.local. *)
+   documented order /etc/please/plzconfig, user config, .plzconfig, .plzconfig_<arch>, .plzconfig.local - a global location
+   the environment names twice (XDG_CONFIG_HOME=~/.config/please names the user config again) once, at its last position;
+   a configuration is only ever produced from ALL the layers that exist (a location that exists but cannot be opened is
+   an error, never "absent"); every source is applied once; and an option of a [Plugin "x"] section - whose keys are
+   case-insensitive - has the values of the highest-priority file that sets it, whatever Go's map iteration order is. *)
 Definition C39_statement : Prop :=
   (forall sch fs filenames profiles ovs c,
      wf_schema sch ->
@@ -23,12 +28,19 @@ Definition C39_statement : Prop :=
           read_order before profiles ++ (f :: map (profile_file f) profiles) ++ read_order after profiles)
   /\ (forall e, exists xdg_dirs xdg_home,
         default_files e =
-          [s "/etc/please/plzconfig"] ++ xdg_dirs ++ [e_home e ++ s "/.config/please/plzconfig"] ++ xdg_home ++
-          [e_root e ++ s "/.plzconfig"; e_root e ++ s "/.plzconfig_" ++ e_arch e; e_root e ++ s "/.plzconfig.local"]).
+          keep_last ([s "/etc/please/plzconfig"] ++ xdg_dirs ++ [e_home e ++ s "/.config/please/plzconfig"] ++ xdg_home) ++
+          [e_root e ++ s "/.plzconfig"; e_root e ++ s "/.plzconfig_" ++ e_arch e; e_root e ++ s "/.plzconfig.local"])
+  /\ (forall sch fs faults filenames profiles ovs c,
+        effective_f sch fs faults filenames profiles ovs = Some c ->
+        openable faults (read_order filenames profiles) = true /\ effective sch fs filenames profiles ovs = Some c)
+  /\ (forall e, NoDup (global_files e))
+  /\ (forall perm srcs k, (forall m, Permutation (perm m) m) -> read_plugins perm srcs k = spec_plugin k srcs).
 
 (* The unchanged code does not satisfy it: a repeated option whose last word is a blank reset gets its
    built-in default back (witness_blank); three more classes are exhibited by witness_preset / witness_derived /
-   witness_alias (cpp.coverage = false appends "cc" to test.disablecoverage). *)
+   witness_alias (cpp.coverage = false appends "cc" to test.disablecoverage).  The plugin clause fails as well: a plugin key
+   that ONE file spells in two ways gets the values of either spelling, depending on the map iteration order
+   (witness_two_spellings). *)
 Theorem C39_refuted : ~ C39_statement.
 Proof. exact (fun H => full_value_clause_false (proj1 H)). Qed.
 Print Assumptions C39_refuted.
@@ -101,11 +113,18 @@ Definition C39_partial_statement : Prop :=
         read_order (before ++ f :: after) profiles =
           read_order before profiles ++ (f :: map (profile_file f) profiles) ++ read_order after profiles)
   /\ (forall fs name, fs_open fs name = None -> sources fs [name] = [])
-  (* 10. the documented order of the default files (proved through the order regenerated from config.go) *)
+  (* 10. the documented order of the default files (proved through the order and the keep-last dedupe regenerated from
+         config.go); every global location is read once, none is lost, and without repeated names the order is literally
+         the documented list; the position kept is the last mention *)
   /\ (forall e, exists xdg_dirs xdg_home,
         default_files e =
-          [s "/etc/please/plzconfig"] ++ xdg_dirs ++ [e_home e ++ s "/.config/please/plzconfig"] ++ xdg_home ++
+          keep_last ([s "/etc/please/plzconfig"] ++ xdg_dirs ++ [e_home e ++ s "/.config/please/plzconfig"] ++ xdg_home) ++
           [e_root e ++ s "/.plzconfig"; e_root e ++ s "/.plzconfig_" ++ e_arch e; e_root e ++ s "/.plzconfig.local"])
+  /\ ((forall e, NoDup (global_files e))
+      /\ (forall e x, In x (global_files e) <-> In x (global_files_raw e))
+      /\ (forall l, NoDup l -> keep_last l = l)
+      /\ (forall before x after, ~ In x after ->
+            exists pre, keep_last (before ++ x :: after) = pre ++ x :: keep_last after /\ ~ In x pre))
   (* 11. the defaults used in the correspondence are the ones written in config.go (regenerated) *)
   /\ (forall path, schema_matches_gen (real_schema_at path) sampled = true /\ wf_schema (real_schema_at path)
                    /\ getenv (real_schema_at path) (s "PATH") = path)
@@ -147,16 +166,60 @@ Definition C39_partial_statement : Prop :=
         let srcs := sources fs (read_order filenames profiles) in
         post_hits s1 srcs o = false -> post_hits s2 srcs o = false ->
         assoc o (computed s1) = None \/ rawcfg s1 srcs o <> [] ->
-        c1 o = c2 o).
+        c1 o = c2 o)
+  (* 16. no layer is ever silently skipped: a configuration is only produced when every Open of the read order succeeded or
+         reported "does not exist", and it is then the one computed from all the existing files (clauses 1-15 apply to it) *)
+  /\ (forall sch fs faults filenames profiles ovs c,
+        effective_f sch fs faults filenames profiles ovs = Some c ->
+        openable faults (read_order filenames profiles) = true /\ effective sch fs filenames profiles ovs = Some c)
+  (* 17. a location that exists but cannot be opened aborts the read, and nothing after it is opened *)
+  /\ (forall sch fs faults filenames profiles ovs before n after,
+        read_order filenames profiles = before ++ n :: after ->
+        openable faults before = true -> mem n faults = true ->
+        effective_f sch fs faults filenames profiles ovs = None
+        /\ snd (read_loop fs faults (read_order filenames profiles)) = before ++ [n])
+  (* 18. the handling of an Open error and the statements around one file are the ones written in readConfigFileOnly /
+         readConfigFile (regenerated) *)
+  /\ ((forall fs faults name, fs_open_f fs faults name = open_by_policy fs faults name)
+      /\ read_file_steps = [RSavePlugins; RFreshPlugins; RReadOrAbort; RMergePlugins])
+  (* 19. [Plugin "x"] options, for every map iteration order and every list of files none of which spells the key in two
+         ways: the documented layering (highest-priority file that sets the key case-insensitively; its values) *)
+  /\ (forall perm srcs k,
+        (forall m, Permutation (perm m) m) -> (forall f, In f srcs -> one_spelling k f) ->
+        read_plugins perm srcs k = spec_plugin k srcs)
+  (* 20. ... in source-level form: the file after which nothing sets the key wins, lower layers and capitalisation are
+         irrelevant; an option only a lower layer sets is kept (take that layer as f) *)
+  /\ (forall perm lower f higher k,
+        (forall m, Permutation (perm m) m) ->
+        (forall g, In g (lower ++ f :: higher) -> one_spelling k g) ->
+        pmentions k f = true -> Forall (fun g => pmentions k g = false) higher ->
+        read_plugins perm (lower ++ f :: higher) k = Some (pvals k f))
+  (* 21. the map iteration order is irrelevant; a plugin option no file sets has no value *)
+  /\ (forall perm1 perm2 srcs k,
+        (forall m, Permutation (perm1 m) m) -> (forall m, Permutation (perm2 m) m) ->
+        (forall f, In f srcs -> one_spelling k f) ->
+        read_plugins perm1 srcs k = read_plugins perm2 srcs k)
+  /\ (forall perm srcs k,
+        (forall m, Permutation (perm m) m) -> Forall (fun g => pmentions k g = false) srcs ->
+        read_plugins perm srcs k = None)
+  (* 22. the passes of normaliseAndMergePluginConfig, interpreted in the order they are written in config.go (regenerated),
+         are the layer step of the model: keys lower-cased first, previous layers merged in afterwards *)
+  /\ (forall perm old f,
+        stage_eq (fold_left (interp_pstep perm old) plugin_merge_steps (Some (Raw (parse_pfile f)))) (read_layer perm old f)).
 
 Theorem C39_partial : C39_partial_statement.
 Proof.
   exact (conj values_partial (conj list_defects_real (conj scalar_highest_priority (conj repeated_accumulate
         (conj blank_clears (conj blank_last_restores_default (conj override_replaces (conj default_when_unset
         (conj profile_adjacent (conj missing_file_ignored (conj default_order_documented
+        (conj (conj global_files_once (conj global_files_complete (conj keep_last_id keep_last_last)))
         (conj (fun p => conj (real_schema_matches_source p) (conj (real_schema_at_wf p) (real_getenv_path p)))
         (conj explicit_beats_default (conj mem_accumulated_iff (conj computed_default_source_level
-              environment_only_reaches_unset_computed))))))))))))))).
+        (conj environment_only_reaches_unset_computed
+        (conj unopenable_layer_never_skipped (conj unopenable_layer_aborts
+        (conj (conj gen_open_policy gen_read_file_steps)
+        (conj plugin_highest_layer_wins (conj plugin_source_level (conj plugin_order_independent (conj plugin_unset
+              gen_plugin_layer)))))))))))))))))))))))).
 Qed.
 Print Assumptions C39_partial.
 
@@ -176,6 +239,36 @@ Proof.
         (conj (conj (proj1 witness_preset) (proj1 (proj2 witness_preset)))
         (conj (conj (proj1 witness_derived) (proj1 (proj2 witness_derived)))
               (conj (proj1 witness_alias) (proj1 (proj2 witness_alias)))))).
+Qed.
+
+(* Non-vacuity of the further refuted clause: one file spelling a plugin key in two ways gives either spelling's value
+   depending on the iteration order, never the documented one.  And the regression for the user config named twice
+   (XDG_CONFIG_HOME=~/.config/please): it is read once, a repeated option it sets is accumulated once. *)
+Example C39_refuted_more_witnesses :
+  (read_plugins (fun m => m) [w_two_spellings] pk_gotool = Some [s "two"]
+      /\ read_plugins (@rev _) [w_two_spellings] pk_gotool = Some [s "one"]
+      /\ spec_plugin pk_gotool [w_two_spellings] = Some [s "one"; s "two"])
+  /\ (default_files xdg_dup_env =
+        [s "/etc/please/plzconfig"; s "/home/u/.config/please/plzconfig"; s "/r/.plzconfig"; s "/r/.plzconfig_linux_amd64"; s "/r/.plzconfig.local"]
+      /\ value_at (effective real_schema [(s "/home/u/.config/please/plzconfig", [Assign (Multi (s "parse.blacklistdirs")) (s "x")])]
+                     (default_files xdg_dup_env) [] []) (Multi (s "parse.blacklistdirs")) = Some [s "x"]).
+Proof.
+  split; [|exact xdg_dup_read_once].
+  exact (conj (proj1 witness_two_spellings) (conj (proj1 (proj2 witness_two_spellings)) eq_refl)).
+Qed.
+
+(* Non-vacuity of clauses 16-22: a mixed-case two-layer plugin configuration (hypotheses of 19/20 hold, the higher layer
+   wins under two different iteration orders, the lower layer's other option is kept), and an unopenable .plzconfig.local. *)
+Example C39_layers_nonvacuous :
+  read_plugins (fun m => m) [w_plugin_base; w_plugin_local] pk_gotool = Some [s "/from/local/go"]
+  /\ read_plugins (@rev _) [w_plugin_base; w_plugin_local] pk_gotool = Some [s "/from/local/go"]
+  /\ read_plugins (fun m => m) [w_plugin_base; w_plugin_local] (s "go", s "importpath") = Some [s "example.com/base"]
+  /\ one_spelling pk_gotool w_plugin_base /\ one_spelling pk_gotool w_plugin_local
+  /\ effective_f real_schema w_fault_fs [s "/r/.plzconfig.local"] (default_files root_env) [] [] = None
+  /\ value_at (effective_f real_schema w_fault_fs [] (default_files root_env) [] []) (Single SStr (s "build.config")) = Some [s "local"].
+Proof.
+  destruct plugin_examples as [H1 [H2 [H3 [H4 H5]]]]. destruct fault_examples as [F1 [F2 _]].
+  exact (conj H1 (conj H2 (conj H3 (conj H4 (conj H5 (conj F2 F1)))))).
 Qed.
 
 (* Non-vacuity of the computed-default clauses (8, 12, 14) under $PATH = /caller/bin:/usr/bin:
